@@ -85,6 +85,8 @@ pub enum Ty {
   Ref(Box<Ty>, bool),
   CollSimple(Base, bool),
   CollRef(Box<Ty>),
+  /// collection of a referenced (simple chain) type with allowed values of the collection definition's own: they apply to each item
+  CollRefAllowed(Box<Ty>),
   Comp(Vec<(String, Ty)>),
   CollComp(Vec<(String, Ty)>),
   /// typeRef `Any`: no constraint (used for a component next to a constrained one)
@@ -99,6 +101,7 @@ impl Ty {
       Ty::Ref(x, a) => format!("ref{}({})", if *a { "+allowed" } else { "" }, x.shape()),
       Ty::CollSimple(_, a) => format!("collection-of-simple{}", if *a { "+allowed" } else { "" }),
       Ty::CollRef(x) => format!("collection-of-ref({})", x.shape()),
+      Ty::CollRefAllowed(x) => format!("collection-of-ref+allowed({})", x.shape()),
       Ty::Comp(cs) => format!("component({})", cs[0].1.shape()),
       Ty::CollComp(cs) => format!("collection-of-component({})", cs[0].1.shape()),
       Ty::Any => "any".into(),
@@ -108,7 +111,7 @@ impl Ty {
     match self {
       Ty::Any => Base::Number,
       Ty::Builtin(b) | Ty::Simple(b, _) | Ty::CollSimple(b, _) => *b,
-      Ty::Ref(x, _) | Ty::CollRef(x) => x.base(),
+      Ty::Ref(x, _) | Ty::CollRef(x) | Ty::CollRefAllowed(x) => x.base(),
       Ty::Comp(cs) | Ty::CollComp(cs) => cs[0].1.base(),
     }
   }
@@ -124,7 +127,7 @@ impl Ty {
     match self {
       Ty::Builtin(_) | Ty::Simple(..) | Ty::Any => 1,
       Ty::CollSimple(..) => 2,
-      Ty::Ref(x, _) | Ty::CollRef(x) => 1 + x.depth(),
+      Ty::Ref(x, _) | Ty::CollRef(x) | Ty::CollRefAllowed(x) => 1 + x.depth(),
       Ty::Comp(cs) | Ty::CollComp(cs) => 1 + cs.iter().map(|c| c.1.depth()).max().unwrap_or(0),
     }
   }
@@ -184,6 +187,7 @@ fn norm_mode(ty: &Ty, v: &Val, any_as_null: bool) -> Option<Val> {
     }
     Ty::CollSimple(b, allowed) => norm_list(&Ty::Simple(*b, *allowed), v, any_as_null),
     Ty::CollRef(x) => norm_list(x, v, any_as_null),
+    Ty::CollRefAllowed(x) => norm_list(&Ty::Ref(x.clone(), true), v, any_as_null),
     Ty::Comp(cs) => norm_ctx(cs, v, any_as_null),
     Ty::CollComp(cs) => norm_list(&Ty::Comp(cs.clone()), v, any_as_null),
   }
@@ -257,6 +261,7 @@ fn conforms(ty: &Ty, v: &Val) -> Option<bool> {
     },
     Ty::CollSimple(b, allowed) => conforms_list(&Ty::Simple(*b, *allowed), v),
     Ty::CollRef(x) => conforms_list(x, v),
+    Ty::CollRefAllowed(x) => conforms_list(&Ty::Ref(x.clone(), true), v),
     Ty::Comp(cs) => match v {
       Val::Ctx(es) => {
         let mut open = false;
@@ -307,6 +312,7 @@ fn item_type(ty: &Ty) -> Option<Ty> {
   match ty {
     Ty::CollSimple(b, a) => Some(Ty::Simple(*b, *a)),
     Ty::CollRef(x) => Some((**x).clone()),
+    Ty::CollRefAllowed(x) => Some(Ty::Ref(x.clone(), true)),
     Ty::CollComp(cs) => Some(Ty::Comp(cs.clone())),
     Ty::Ref(x, _) => item_type(x),
     _ => None,
@@ -347,7 +353,7 @@ fn ok(ty: &Ty) -> Val {
     Ty::Builtin(b) | Ty::Simple(b, _) => Val::Atom(*b, true),
     Ty::Ref(x, _) => ok(x),
     Ty::CollSimple(b, _) => Val::List(vec![Val::Atom(*b, true)]),
-    Ty::CollRef(x) => Val::List(vec![ok(x)]),
+    Ty::CollRef(x) | Ty::CollRefAllowed(x) => Val::List(vec![ok(x)]),
     Ty::Comp(cs) => Val::Ctx(cs.iter().map(|(n, t)| (n.clone(), ok(t))).collect()),
     Ty::CollComp(cs) => Val::List(vec![Val::Ctx(cs.iter().map(|(n, t)| (n.clone(), ok(t))).collect())]),
   }
@@ -380,7 +386,7 @@ fn vals(ty: &Ty) -> Vec<(String, Val)> {
       out
     }
     Ty::Ref(x, _) => vals(x),
-    Ty::CollSimple(..) | Ty::CollRef(_) | Ty::CollComp(_) => {
+    Ty::CollSimple(..) | Ty::CollRef(_) | Ty::CollRefAllowed(_) | Ty::CollComp(_) => {
       let it = item_type(ty).unwrap();
       let good = ok(&it);
       let mut out = vec![];
@@ -481,6 +487,11 @@ impl Emit {
           d.allowed = Some(b.allowed_text().into());
         }
       }
+      Ty::CollRefAllowed(x) => {
+        d.type_ref = Some(self.named(x));
+        d.is_collection = true;
+        d.allowed = Some(x.base().allowed_text().into());
+      }
       Ty::CollRef(x) => {
         d.type_ref = Some(self.named(x));
         d.is_collection = true;
@@ -513,6 +524,9 @@ fn wraps(x: &Ty) -> Vec<Ty> {
     out.push(Ty::CollSimple(*b, *a));
   }
   out.push(Ty::CollRef(Box::new(x.clone())));
+  if x.resolves_simple().is_some() {
+    out.push(Ty::CollRefAllowed(Box::new(x.clone())));
+  }
   out.push(Ty::Comp(vec![("a".into(), x.clone()), ("b".into(), plain_number.clone())]));
   out.push(Ty::CollComp(vec![("a".into(), x.clone()), ("b".into(), plain_number)]));
   // an unconstrained component next to the constrained one
